@@ -135,7 +135,7 @@ def r2(ctx):
         yield VIOL("C01-R2", "hmac_sha256/key-param", "MAC key does not derive from parameter 0 (`key`) only: params %s" % sorted(ks.params), where=b.span_of_block(new[0]))
     else:
         yield PASS("C01-R2", "hmac_sha256/key-param", "new_from_slice(key) <= parameter 0 only", [site(b, new[0], "new_from_slice")])
-    ups = b.calls(r"Mac::update$|Update::update$")
+    ups = b.calls(r"Mac::update$|Update::update$|Mac::chain_update$|Update::chain\w*$")
     if not ups:
         yield VIOL("C01-R2", "hmac_sha256/no-update", "no update() call", where=loc(b.j["span"]))
     for ub, ut in ups:
@@ -145,25 +145,34 @@ def r2(ctx):
         else:
             yield PASS("C01-R2", "hmac_sha256/update-param", "update(value) <= parameter 1 only", [site(b, ub, "update")])
     rs = b.slice([0])
-    if not rs.has_call(r"Mac::finalize$") or not all(b.dominates(u[0], r) for u in ups for r in b.return_blocks()):
+    if not rs.has_call(r"Mac::finalize$|FixedOutput::finalize_fixed$") or not all(b.dominates(u[0], r) for u in ups for r in b.return_blocks()):
         yield VIOL("C01-R2", "hmac_sha256/result", "result does not derive from finalize() after update()", where=loc(b.j["span"]))
     else:
         yield PASS("C01-R2", "hmac_sha256/result", "result <= finalize() and update dominates return", [site(b, ups[0][0], "update")])
-    # sha256
+    # sha256: Sha256::new(); update(value); finalize()  -- or the one-shot Sha256::digest(value)
     s = ctx.fn("crypto::sha256")
-    new = one(s.calls(r"Digest::new$"), "Digest::new in sha256")
-    if "Sha256VarCore" not in new[1].get("resolved_full", ""):
-        yield VIOL("C01-R2", "sha256/instance", "hasher is not Sha256", where=s.span_of_block(new[0]))
-    ups = s.calls(r"Digest::update$|Update::update$")
-    ok = bool(ups)
-    for ub, ut in ups:
-        if s.slice_op(ut["args"][1]).params != {1}:
-            ok = False
-    rs = s.slice([0])
-    if not ok or not rs.has_call(r"Digest::finalize$") or not all(s.dominates(u[0], r) for u in ups for r in s.return_blocks()):
-        yield VIOL("C01-R2", "sha256/dataflow", "sha256 does not hash exactly its parameter", where=loc(s.j["span"]))
+    one_shot = s.calls(r"Digest::digest$")
+    if one_shot:
+        ob, ot = one_shot[0]
+        rs = s.slice([0])
+        if "Sha256VarCore" not in ot.get("resolved_full", "") or s.slice_op(ot["args"][0]).params != {1} or not any(cb == ob for cb, _ in rs.calls):
+            yield VIOL("C01-R2", "sha256/dataflow", "sha256 is not Sha256::digest(param)", where=loc(s.j["span"]))
+        else:
+            yield PASS("C01-R2", "sha256/dataflow", "Sha256::digest(param0)", [site(s, ob, "digest")])
     else:
-        yield PASS("C01-R2", "sha256/dataflow", "Sha256::new(); update(param0); finalize()", [site(s, ups[0][0], "update")])
+        new = one(s.calls(r"Digest::new$"), "Digest::new in sha256")
+        if "Sha256VarCore" not in new[1].get("resolved_full", ""):
+            yield VIOL("C01-R2", "sha256/instance", "hasher is not Sha256", where=s.span_of_block(new[0]))
+        ups = s.calls(r"Digest::update$|Update::update$|Digest::chain_update$")
+        ok = bool(ups)
+        for ub, ut in ups:
+            if s.slice_op(ut["args"][1]).params != {1}:
+                ok = False
+        rs = s.slice([0])
+        if not ok or not rs.has_call(r"Digest::finalize$") or not all(s.dominates(u[0], r) for u in ups for r in s.return_blocks()):
+            yield VIOL("C01-R2", "sha256/dataflow", "sha256 does not hash exactly its parameter", where=loc(s.j["span"]))
+        else:
+            yield PASS("C01-R2", "sha256/dataflow", "Sha256::new(); update(param0); finalize()", [site(s, ups[0][0], "update")])
     h = ctx.fn("crypto::sha256_hex")
     hs = h.slice([0])
     if not (hs.has_call(r"crypto::sha256$") and hs.has_call(r"^hex::encode$") and hs.params == {1}):
@@ -196,13 +205,17 @@ def r3(ctx):
     so = b.calls(r"str>::split_once$")
     if so:
         cv = const_value(op_const(so[0][1]["args"][1]) or {})
-        cl = [c for c in ctx.facts.closures_of(STS)]
         second = False
-        for c in cl:
-            for d in c.defs().get(0, []):
-                if d["kind"] == "assign" and d["stmt"]["rv"]["k"] == "use":
-                    p = op_place(d["stmt"]["rv"]["op"])
-                    if p and [e.get("idx") for e in p["proj"] if isinstance(e, dict) and "field" in e] == [1]:
+        must, anyh = must_contrib(b, acc, lambda sl, t: sl.has_call(r"str>::split_once$"))
+        for cb, t, ai, sl in acc_contribs(b, acc):
+            if not sl.has_call(r"str>::split_once$"):
+                continue
+            for d in sl.assigns:
+                rv = d["stmt"]["rv"]
+                if rv["k"] == "use":
+                    p = op_place(rv["op"])
+                    if p and [e.get("idx") for e in p["proj"] if isinstance(e, dict) and "field" in e][-1:] == [1] and b.slice([p["local"]]).has_call(r"str>::split_once$"):
+                        firsts = [e.get("idx") for e in p["proj"] if isinstance(e, dict) and "field" in e]
                         second = True
         if cv != ord("/") or not second:
             yield VIOL("C01-R3", "get_string_to_sign/scope-split", "credential scope is not the remainder after the first '/' (separator %r, takes .1: %s)" % (cv, second), where=b.span_of_block(so[0][0]))
